@@ -103,6 +103,8 @@ class FixedPoint:
                 t[self.P.vname_id(n['b'], x[1])] = x
             if x[0] == 'w':
                 t[self.P.whole_id(x)] = x
+            if x[0] == 'an':
+                t[self.P.cell_id(*x[1:5]) + '#'] = x
         for x in refs_of(expr):
             if x[0] == 'r':
                 t[self.P.rect_id(*x[1:])] = x
@@ -179,6 +181,25 @@ class FixedPoint:
                 if v is None:
                     return 'skip', 'missing name value'
                 args.append(v)
+                continue
+            if x[0] == 'an':
+                # the whole array anchored there; #REF! if no array formula is
+                # anchored at that cell (or the reference could not be served)
+                from formulas.tokens.operand import Error
+                pos = tuple(x[1:5])
+                o = Index(self.world).occupant(pos)
+                c = self.world['cells'][o] if o is not None else None
+                dead = pos + pos[2:] in getattr(obs, 'failed_rects', ()) or \
+                    c is None or 'arr' not in c or tuple(c['at']) != pos
+                val = None if dead else obs.rect(['r'] + list(cell_rect(c)))
+                if not dead and val is None:
+                    return 'skip', 'missing input'
+                if dead or (hasattr(obs, 'gone_pos') and obs.gone_pos(pos)):
+                    args.append(Ranges().push('A1:', np.asarray(
+                        [[Error.errors['#REF!']]], object)))
+                else:
+                    args.append(Ranges().push(
+                        self.P.rect_id(*cell_rect(c)), val))
                 continue
             if x[0] == 'w':
                 # the window's observed values inside an otherwise blank
